@@ -214,6 +214,17 @@ def run(chk):
                 for tail in ("", " measure a;", " int z = 1;"):
                     corpus.append(("function main() -> void { %s%s %s;%s }" % (anns, ty, names, tail), None, None))
                     corpus.append(("class K { public constructor() -> K = default; public function m() -> void { %s%s %s;%s } }" % (anns, ty, names, tail), None, None))
+    # the same at the top level of the file (program = { classDecl | function | statement }): the extra declarators belong right
+    # after their own statement, wherever it stands among functions and classes, and never inside a later function's body
+    for anns in ("", "@tracked "):
+        for names in ("a, b", "a, b, c"):
+            decl = "%squbit %s;" % (anns, names)
+            fn1 = "function helper() -> int { int b = 7; return b; }"
+            fn2 = "function main() -> void { echo(helper()); int k = 1; echo(k); }"
+            cls = "class K { public int n = 1; public constructor() -> K = default; public function f() -> int { int b = 2; return b + n; } }"
+            for order in ([decl, fn1, fn2], [fn1, decl, fn2], [fn1, fn2, decl], [decl, cls, fn2], [cls, decl, fn1, fn2], [decl, "int top = 3;", fn2],
+                          [decl, decl.replace("a", "p").replace("b", "r").replace("c", "s"), fn1, fn2], [decl, "echo(1);", fn2]):
+                corpus.append(("\n".join(order), None, None))
     # assignment is right-associative in every expression position (array element, member, argument, initialiser, condition)
     for tgt in ("x", "a[0]", "p.v", "a[i = 1]"):
         for rhs in ("y = 1", "y = z = 2", "a[1] = y = 3", "p.w = y"):
